@@ -118,21 +118,53 @@ func (c *cluster) tplLagSnap(rt *rapid.T) {
 }
 
 // tplStaleInstall: the leader's first InstallSnapshot request to a lagging
-// follower is withheld on its connection; the leader gives up, reconnects and
+// non-voter is withheld on its connection; the leader gives up, reconnects and
 // installs the snapshot over the new connection, the follower moves on; then the
-// bytes of the old connection arrive.
+// bytes of the old connection arrive. The lagging node is a non-voter so that it
+// does not start elections meanwhile (a term change would make the withheld
+// request stale by term, which is rejected long before the code of interest).
 func (c *cluster) tplStaleInstall(rt *rapid.T) {
 	c.step(vAct{A: "free"})
 	c.step(vAct{A: "adv", T: 1500})
 	ldr := c.anyLeader()
 	flrs := c.followersOf(ldr)
-	if ldr == 0 || len(flrs) < 2 {
+	if ldr == 0 || len(flrs) < 2 || c.blackbox {
+		return
+	}
+	r := raftOf(c.up(ldr))
+	if r == nil {
+		return
+	}
+	cfg := r.configs.Latest.clone()
+	var f uint64
+	var outside, voters []uint64
+	for _, id := range flrs {
+		if nd, ok := cfg.Nodes[id]; !ok {
+			outside = append(outside, id)
+		} else if nd.Voter {
+			voters = append(voters, id)
+		} else if f == 0 {
+			f = id
+		}
+	}
+	switch {
+	case f != 0:
+	case len(outside) > 0 && rapid.Bool().Draw(rt, "joinNonvoter"):
+		f = outside[0]
+		c.step(vAct{A: "cfg", N: ldr, M: f, S: "addnv"})
+	case len(voters) >= 2:
+		f = voters[rapid.IntRange(0, len(voters)-1).Draw(rt, "follower")]
+		c.step(vAct{A: "cfg", N: ldr, M: f, S: "demote"})
+	default:
+		return
+	}
+	c.step(vAct{A: "adv", T: 2500})
+	if c.anyLeader() != ldr {
 		return
 	}
 	c.stats.class("tpl-staleinstall")
-	f := flrs[rapid.IntRange(0, len(flrs)-1).Draw(rt, "follower")]
 	c.step(vAct{A: "isolate", N: f, B: true})
-	c.step(vAct{A: "adv", T: 3000})
+	c.step(vAct{A: "adv", T: 1500})
 	if c.anyLeader() != ldr {
 		return
 	}
@@ -141,27 +173,51 @@ func (c *cluster) tplStaleInstall(rt *rapid.T) {
 	c.step(vAct{A: "adv", T: 2000})
 	c.step(vAct{A: "gate"})
 	c.step(vAct{A: "heal"})
+	// one delivery round at a time, so that the request is seen being written
+	// (wire monitor) before any of its bytes are delivered
 	before := c.stats.count("wire-installSnap")
-	for i := 0; i < 12 && c.stats.count("wire-installSnap") == before && !c.failed(); i++ {
-		c.step(vAct{A: "adv", T: 600})
-		c.step(vAct{A: "dlvpair", N: ldr, M: f, K: 6})
+	for i := 0; i < 60 && c.stats.count("wire-installSnap") == before && !c.failed(); i++ {
+		c.step(vAct{A: "dlvpair", N: ldr, M: f, K: 1})
+		if c.stats.count("wire-installSnap") == before && i%2 == 1 {
+			c.step(vAct{A: "adv", T: 150})
+		}
 	}
 	if c.stats.count("wire-installSnap") == before {
 		c.step(vAct{A: "free"})
 		return
 	}
+	c.stats.class("tpl-staleinstall-withheld")
 	// the request (and the snapshot bytes) now sit undelivered on that connection;
-	// the leader's read deadline passes, it closes the connection and dials again
-	c.step(vAct{A: "adv", T: 5000})
-	okBefore := c.stats.count("wire-install-ok")
-	for i := 0; i < 12 && c.stats.count("wire-install-ok") == okBefore && !c.failed(); i++ {
-		c.step(vAct{A: "adv", T: 600})
-		c.step(vAct{A: "dlvnewest", N: ldr, M: f, K: 6})
+	// the others keep talking; the leader's read deadline passes, it closes the
+	// connection and dials again
+	var others []uint64
+	for _, id := range c.upIDs() {
+		if id != f {
+			others = append(others, id)
+		}
 	}
-	if rapid.Bool().Draw(rt, "moveOn") {
+	stale := c.net.newestConnID(hostOf(ldr), hostOf(f))
+	for i := 0; i < 30 && c.net.newestConnID(hostOf(ldr), hostOf(f)) == stale && !c.failed(); i++ {
+		c.step(vAct{A: "adv", T: 400})
+		c.step(vAct{A: "dlvamong", L: others, K: 3})
+	}
+	if c.net.newestConnID(hostOf(ldr), hostOf(f)) == stale || c.anyLeader() != ldr {
+		c.step(vAct{A: "free"})
+		return
+	}
+	okBefore := c.stats.count("wire-install-ok")
+	for i := 0; i < 16 && c.stats.count("wire-install-ok") == okBefore && !c.failed(); i++ {
+		c.step(vAct{A: "dlvnewest", N: ldr, M: f, K: 6})
+		c.step(vAct{A: "adv", T: 300})
+		c.step(vAct{A: "dlvamong", L: others, K: 3})
+	}
+	if c.stats.count("wire-install-ok") > okBefore {
+		c.stats.class("tpl-staleinstall-reinstalled")
+	}
+	if rapid.IntRange(0, 3).Draw(rt, "moveOn") > 0 {
 		c.step(vAct{A: "upd", N: ldr, K: rapid.IntRange(1, 8).Draw(rt, "k"), T: 20})
 		for i := 0; i < 4 && !c.failed(); i++ {
-			c.step(vAct{A: "dlvamong", L: c.upIDsExceptOldConn(), K: 1})
+			c.step(vAct{A: "dlvamong", L: others, K: 2})
 			c.step(vAct{A: "dlvnewest", N: ldr, M: f, K: 4})
 			c.step(vAct{A: "adv", T: 300})
 		}
@@ -171,10 +227,6 @@ func (c *cluster) tplStaleInstall(rt *rapid.T) {
 	c.step(vAct{A: "free"})
 	c.step(vAct{A: "adv", T: 3000})
 }
-
-// upIDsExceptOldConn: helper for tplStaleInstall (all running nodes; the stale
-// connection is excluded by using dlvnewest for that pair).
-func (c *cluster) upIDsExceptOldConn() []uint64 { return c.upIDs() }
 
 var crashStimulus = map[string]string{
 	"term.persisted": "election", "vote.persisted": "election",
